@@ -205,6 +205,9 @@ pub trait Children {
     type GRefChild: ReadOnly + 'static;
     #[wrap_with_group_mut(GrpA)]
     type GMutChild: Basic + Send + 'static;
+    /// a borrowed child from which owned grandchildren can be derived
+    #[wrap_with_obj_ref(Spawner)]
+    type NestChild: Spawner + 'static;
 
     fn c_owned(&self, salt: u64) -> Self::Child;
     fn c_owned_mut(&mut self, salt: u64) -> Self::Child;
@@ -214,6 +217,16 @@ pub trait Children {
     fn c_group_ref(&self) -> &Self::GRefChild;
     fn c_group_mut(&mut self) -> &mut Self::GMutChild;
     fn c_count(&self) -> u64;
+    fn c_nest(&self) -> &Self::NestChild;
+}
+
+/// Only a shared receiver, returning an owned wrapped object: what a borrowed child needs in order
+/// to have descendants of its own.
+#[cglue_trait]
+pub trait Spawner {
+    #[wrap_with_obj(ReadOnly)]
+    type Kid: ReadOnly + 'static;
+    fn sp_kid(&self, salt: u64) -> Self::Kid;
 }
 
 /// Wrapped associated type returned from a by-value receiver, and inside an int result.
@@ -686,7 +699,12 @@ macro_rules! implementor {
             type GChild = Solo;
             type GRefChild = Solo;
             type GMutChild = Solo;
+            type NestChild = Solo;
 
+            fn c_nest(&self) -> &Solo {
+                self.core.enter("c_nest", 0, &[]);
+                self.ro()
+            }
             fn c_owned(&self, salt: u64) -> Solo {
                 self.core.enter("c_owned", salt, &[]);
                 Solo::new(self.core.child(salt))
@@ -719,6 +737,14 @@ macro_rules! implementor {
             fn c_count(&self) -> u64 {
                 self.core.enter("c_count", 0, &[]);
                 self.core.get()
+            }
+        }
+
+        impl Spawner for $name {
+            type Kid = Solo;
+            fn sp_kid(&self, salt: u64) -> Solo {
+                self.core.enter("sp_kid", salt, &[]);
+                Solo::new(self.core.child(salt ^ 0x51))
             }
         }
 
